@@ -98,6 +98,9 @@ def build(case):
 
 def close(a, b, rtol):
     try:
+        if isinstance(a, list) and isinstance(b, list) and a and all(isinstance(x, list) for x in a) and all(isinstance(x, list) for x in b):
+            # rows of different lengths: row by row
+            return len(a) == len(b) and all(len(x) == len(y) and (len(x) == 0 or np.allclose(np.array(x, dtype=float), np.array(y, dtype=float), rtol=rtol, atol=0, equal_nan=True)) for x, y in zip(a, b))
         return np.allclose(np.array(a, dtype=float), np.array(b, dtype=float), rtol=rtol, atol=0, equal_nan=True)
     except Exception:
         return False
@@ -147,7 +150,7 @@ def run(case):
         if not p_.ok:
             return violated("rl[:, %s:%s] of the %s variant of %s rows %s raised %r" % (pre[0], pre[1], variant, dt, short(pyrows, 200), p_), tags)
         rlx = p_.value
-        rows = [r[sl_] for r in rows]
+        rows = [np.ascontiguousarray(r[sl_]) for r in rows]      # (contiguous copies: numpy's transcendental loops may differ in the last bit between strided and contiguous inputs)
         pyrows = [r.tolist() for r in rows]
         tags.append("pre:column-range")
     n = len(rows)
@@ -344,6 +347,8 @@ def run(case):
             oo = attempt(lambda: ("2d", [uf(p, r).tolist() for r, p in zip(rows, per)]))
             a = attempt(lambda: to_rows(uf(other, rlx)))
         what = "%s(%s)" % (case["uf"], ("rl, %s" if side == "R" else "%s, rl") % short(other, 60))
+        if case["uf"] in ("power", "hypot"):
+            rtol = 1e-12        # (not correctly rounded in numpy: the last bit depends on the loop the data happens to go through -- vector length, stride)
         if not oo.ok:
             return undefined("numpy raises", tags)
         o = oo.value
